@@ -41,7 +41,7 @@ ASSUMPTIONS = [
 TRUSTED = ['modelled, not verified: Python float()/int() on text matching the Excel numeric grammar, repr(float), '
            'str.lower/upper on ASCII+Latin-1, C pow()']
 REQUIRED_BUCKETS = ['arith:cell', 'arith:lit', 'cmp:cell', 'cmp:lit', 'concat:cell', 'concat:lit', 'neg:cell',
-                    'neg:lit', 'pct:cell', 'pct:lit', 'errprop', 'coerce:num', 'coerce:str', 'pow:fractional', 'cmp:near']
+                    'neg:lit', 'pct:cell', 'pct:lit', 'errprop', 'coerce:num', 'coerce:str', 'pow:fractional', 'cmp:near', 'arith:decorated-logical']
 EXHAUSTIVE = False
 
 SYM = {'Add': '+', 'Sub': '-', 'Mult': '*', 'Div': '/', 'Pow': '^', 'BitAnd': '&', 'Eq': '=', 'NotEq': '<>',
@@ -71,6 +71,9 @@ MORE_TEXT = [s_(t) for t in (' ', 'aB', 'é', 'É', 'abd', 'ab', '+4', '.5', '1.
 MORE_NUMS = [n_(x) for x in (-3, 7, 0.25, -1.5, 1e-5, 123456789, -1e15, 2 ** 53 - 1, 0.30000000000000004, 1 / 3,
                              1e-15, 99.99)]
 BOOLS = ['b:1', 'b:0']
+DECORATED_LOGICALS = [' TRUE', 'TRUE ', ' true ', ' TRUE ', 'TRUE\t', '\nFALSE', ' FALSE', 'false ', '  False  ',
+                      'T RUE', 'TRUE.', '.TRUE', 'TRUE()', '=TRUE', 'YES', 'NO', '1=1', 'TRU', 'TRUEE', 'FALS',
+                      '"TRUE"', 'TRUE,', 'T', 'F', ' #EMPTY! ']
 CORE_POOL = NUMS + CORE_TEXT + BOOLS + ['z'] + ERRS
 MORE_POOL = MORE_TEXT + MORE_NUMS
 POOL = CORE_POOL + MORE_POOL
@@ -346,6 +349,21 @@ def cases(tier, rng):
             for op in OPS:
                 yield from emit(op_case(op, l, r, 'cell', lf=True))
                 yield from emit(op_case(op, r, l, 'cell', rf=True))
+    # --- padded / decorated spellings of logicals: other text (#VALUE!), NOT the known finding's exact spellings
+    for t in DECORATED_LOGICALS:
+        for other in (n_(1), n_(5), n_(10), n_(0), n_(0.5), 'b:1', 'z', s_('3'), s_('TRUE'), s_('a')):
+            for op in ARITH:
+                for mode in modes:
+                    yield from emit(op_case(op, s_(t), other, mode, deco=1))
+                    yield from emit(op_case(op, other, s_(t), mode, deco=1))
+        for k in ('neg', 'pct'):
+            for mode in modes:
+                yield from emit({'k': k, 'x': s_(t), 'mode': mode, 'deco': 1})
+        for ca in (0, 1):
+            yield {'k': 'num', 'ca': ca, 'v': s_(t)}
+        for op in CMP + ('BitAnd',):
+            yield op_case(op, s_(t), 'b:1', 'cell')
+            yield op_case(op, s_('TRUE'), s_(t), 'cell')
     # --- unary minus and percent
     for x in POOL:
         for k in ('neg', 'pct'):
@@ -483,7 +501,10 @@ def _is_arith(c):
 
 def finding_key(c, impl_out, model_out):
     if _is_arith(c) and impl_out and model_out == 'e:value' and impl_out != 'e:value' \
-            and not impl_out.startswith('!') and any(_is_logical_text(t) for t in _operands(c)):
+            and not impl_out.startswith('!') and any(_is_logical_text(t) for t in _operands(c)) \
+            and all(_is_logical_text(t) or isinstance(_num_of(t), Fraction) for t in _operands(c)):
+        # ONLY the exact spellings TRUE/FALSE (any case), every other operand standing for a number: padded or
+        # decorated spellings (" TRUE", "TRUE.", "YES") are other text and a number there is a violation
         return 'text-logical-as-number'
     return None
 
@@ -503,6 +524,8 @@ def bucket(c):
         return 'pow:fractional'
     if c.get('near'):
         return 'cmp:near'
+    if c.get('deco'):
+        return 'arith:decorated-logical'
     kind = 'arith' if c['op'] in ARITH else 'concat' if c['op'] == 'BitAnd' else 'cmp'
     return f"{kind}:{c['mode']}"
 
